@@ -47,6 +47,7 @@ structure Cfg where
   nw : Nat             -- number of waker threads
   flushArms : Bool     -- iour flush arms the notifier (post b814cbc)
   rewake : Bool        -- Remote::schedule wakes the driver after a push that followed a spin (repair of F030)
+  sqcap : Nat := 1024  -- io_uring submission queue capacity (`ProactorBuilder::capacity`)
   deriving DecidableEq, Repr
 
 /-- state of the notifier's multishot `PollAdd` -/
@@ -126,6 +127,7 @@ structure State where
   pnot : Bool
   needWait : Bool
   zero : Bool                 -- the next wait has a zero timeout
+  sq : Nat                    -- io_uring: entries pushed to the submission queue and not yet submitted
   -- executor
   word : Nat → Word
   dropped : Nat → Bool        -- `Task::drop` by the executor (`shared` = null, removed from the map)
@@ -152,7 +154,7 @@ theorem upd_other {α : Type} (f : Nat → α) (i j : Nat) (v : α) (h : j ≠ i
 
 def init (cfg : Cfg) : State :=
   { cfg := cfg, flag := AwakeFlag.new, efd := 0, arm := .needPush, cq := false, xfd := 0, pnot := false,
-    needWait := false, zero := false,
+    needWait := false, zero := false, sq := 0,
     word := fun _ => TaskState.new 2, dropped := fun _ => false, sync := [], pending := 0, hot := [],
     rt := .mainStart, wk := fun _ => Wk.init,
     mainSeq := 0, mainWoken := false, pollSeq := fun _ => 0, woken := fun _ => false, polls := fun _ => 0,
@@ -195,13 +197,11 @@ def ringReadable (s : State) : Bool :=
 
 /-! ### driver steps (runtime thread) -/
 
-/-- `arm_notifier` -/
-def armAfter (s : State) : Arm :=
+/-- does `arm_notifier` push the PollAdd (`NEED_PUSH_NOTIFIER` set)? -/
+def armPushes (s : State) : Bool :=
   match s.cfg.drv with
-  | .iour => if s.arm = .needPush then .queued else s.arm
-  | .poll => s.arm
-
-def doArm (s : State) : State := { s with arm := armAfter s }
+  | .iour => s.arm == .needPush
+  | .poll => false
 
 /-- does the submission arm the notifier's poll in the kernel? -/
 def submits (s : State) : Bool :=
@@ -209,11 +209,24 @@ def submits (s : State) : Bool :=
   | .iour => s.arm == .queued
   | .poll => false
 
+/-- `push_raw` when the submission queue is FULL: `submit_auto(0, true)` (everything queued goes to the kernel, a
+notifier poll armed on an already readable eventfd completes at once), then `poll_entries` — the completion
+queue is reaped in the middle of whatever the runtime thread is doing: a NOTIFY completion is consumed and the
+eventfd cleared, THE AWAKE FLAG IS NOT TOUCHED — then the entry is pushed (it is alone in the queue).
+One step here; in `Driver::poll` the same reaping is the two steps `consume`, `clear`. -/
+def overflowPush (s : State) : State :=
+  { s with arm := if submits s then .live else s.arm,
+           cq := false,
+           efd := if s.cq || (submits s && decide (s.efd > 0)) then 0 else s.efd,
+           xfd := s.xfd + (if submits s && decide (s.efd > 0) then 1 else 0),
+           sq := 1 }
+
 /-- the submission half of `submit_auto`; a poll armed on an already readable eventfd completes at once -/
 def doSubmit (s : State) : State :=
   { s with arm := if submits s then .live else s.arm,
            cq := s.cq || (submits s && decide (s.efd > 0)),
-           xfd := s.xfd + (if submits s && decide (s.efd > 0) then 1 else 0) }
+           xfd := s.xfd + (if submits s && decide (s.efd > 0) then 1 else 0),
+           sq := 0 }
 
 /-! ### executor helpers -/
 
@@ -256,6 +269,7 @@ inductive RtEv where
   | go                 -- the poll in progress returns Pending / the wait is attempted / `more` flag set
   | loc (t : Nat)      -- the future being polled wakes task t (`Local::schedule`)
   | ready              -- the task being polled completes
+  | push               -- the future being polled submits an operation (`Driver::push` → `push_raw`)
   | noMore             -- the NOTIFY completion comes without `IORING_CQE_F_MORE`
   | timeout            -- the kernel wait returns because of its timeout (timers) / a spurious return
   deriving DecidableEq, Repr
@@ -278,6 +292,10 @@ def rtStep (s : State) (e : RtEv) : Option State :=
   | .poll (.task t nxt k), .ready =>
     some { (dropTask { s with word := upd s.word t (TaskState.finishRunning (s.word t)) } t) with rt := .run nxt k }
   | .poll b, .loc t => some (startLocal s t b)
+  | .poll _, .push =>
+    match s.cfg.drv with
+    | .poll => some s
+    | .iour => if s.sq < s.cfg.sqcap then some { s with sq := s.sq + 1 } else some (overflowPush s)
   | .drainCheck r, .go =>
     if s.pending = 0 then some (drainDone s r) else some { s with rt := .draining r 0 }
   | .draining r d, .go =>
@@ -304,7 +322,13 @@ def rtStep (s : State) (e : RtEv) : Option State :=
       else some { (startPoll s t) with polls := upd s.polls t (s.polls t + 1), log := s.log ++ [t],
                                        rt := .poll (.task t (nextHot s.hot t) k) }
   -- external loop: `flush`
-  | .xarm, .go => some { (if s.cfg.flushArms then doArm s else s) with rt := .xsubmit }
+  -- `arm_notifier`: if `NEED_PUSH_NOTIFIER`, `push_raw` the multishot PollAdd (overflow path when the submission
+  -- queue is full) and clear the flag
+  | .xarm, .go =>
+    if s.cfg.flushArms && armPushes s then
+      if s.sq < s.cfg.sqcap then some { s with arm := .queued, sq := s.sq + 1, rt := .xsubmit }
+      else some { (overflowPush s) with arm := .queued, rt := .xsubmit }
+    else some { s with rt := .xsubmit }
   | .xsubmit, .go => some { (doSubmit s) with rt := .xreset }
   | .xreset, .go =>
     some { s with flag := (AwakeFlag.reset s.flag).1, zero := s.zero || (AwakeFlag.reset s.flag).2, rt := .xwait }
@@ -314,7 +338,11 @@ def rtStep (s : State) (e : RtEv) : Option State :=
   -- `Driver::poll`
   | .reset, .go =>
     some { s with flag := (AwakeFlag.reset s.flag).1, needWait := !(AwakeFlag.reset s.flag).2, rt := .arm }
-  | .arm, .go => some { (doArm s) with rt := .submit }
+  | .arm, .go =>
+    if armPushes s then
+      if s.sq < s.cfg.sqcap then some { s with arm := .queued, sq := s.sq + 1, rt := .submit }
+      else some { (overflowPush s) with arm := .queued, rt := .submit }
+    else some { s with rt := .submit }
   | .submit, .go => some { (doSubmit s) with rt := .wait }
   | .wait, .go =>
     match s.cfg.drv with
